@@ -6,4 +6,5 @@ Definition orch_actual : oquirks := {|
   q_dry_keeps_storage := true;
   q_lintfile_leaves_evidence := true;
   q_consts_in_processing_order := true;
+  q_ignore_parser_reused := true;
   q_api_file_no_finalize := true |}.
